@@ -161,18 +161,131 @@ fn workload(base: u64, w: u64) -> Vec<Vec<(u64, u64)>> {
     let mut s = base ^ w.wrapping_mul(0x1234_5678_9abc_def1);
     let focus = w % NOPS;
     let threads = 2 + splitmix(&mut s) % 3;
-    let steps = 2 + splitmix(&mut s) % 2;
+    let steps = 2 + splitmix(&mut s) % 3;
     let mut out = Vec::new();
     for _ in 0..threads {
         let mut v = vec![(focus, splitmix(&mut s))];
         for _ in 1..steps {
-            // later calls: mostly other lazily initialised entry points, racing with the other threads' first calls
-            let k = if splitmix(&mut s) % 3 == 0 { (focus + 1 + splitmix(&mut s) % 3) % NOPS } else { splitmix(&mut s) % NOPS };
+            // later calls: sometimes exactly the same call again (same key / message: a value cached by the first call must
+            // still belong to it), otherwise other entry points, racing with the other threads' first calls
+            let c = splitmix(&mut s) % 4;
+            if c == 0 {
+                let prev = v[(splitmix(&mut s) % v.len() as u64) as usize];
+                v.push(prev);
+                continue;
+            }
+            let k = if c == 1 { (focus + 1 + splitmix(&mut s) % 3) % NOPS } else { splitmix(&mut s) % NOPS };
             v.push((k, splitmix(&mut s)));
         }
         out.push(v);
     }
     out
+}
+
+/// S5 second pass (C16): every byte-slice argument is an EXACT-SIZE heap allocation of its own, so that the
+/// interpreter's byte-granular bounds checking sees any access outside the caller's slice - including a read, or a
+/// write of the same value, that stays inside a mapped page and that guard pages therefore cannot see.
+/// `part`/`parts` select a slice of the operation list (chosen from the interpreter's seeded address randomisation
+/// when `part` is not given).
+fn mem_ops(base: u64, part: u64, parts: u64) -> u64 {
+    use digest::{FixedOutput, Update};
+    let mut s = base;
+    let mut acc = 0u64;
+    let mut idx = 0u64;
+    let mut exact = |len: usize, s: &mut u64| -> Box<[u8]> {
+        let mut v = Vec::with_capacity(len);
+        for _ in 0..len {
+            v.push(splitmix(s) as u8);
+        }
+        v.into_boxed_slice()
+    };
+    macro_rules! cipher {
+        ($T:ty, $nl:expr, $pre:expr, $len:expr) => {{
+            idx += 1;
+            if idx % parts == part {
+                let key = exact(32, &mut s);
+                let nonce = exact($nl, &mut s);
+                let mut c = <$T>::new(GenericArray::from_slice(&key), GenericArray::from_slice(&nonce));
+                let mut pre = exact($pre, &mut s);
+                c.apply_keystream(&mut pre);
+                let mut buf = exact($len, &mut s);
+                c.apply_keystream(&mut buf);
+                acc ^= fold(&buf);
+            }
+        }};
+    }
+    macro_rules! hash {
+        ($T:ty, $pre:expr, $len:expr) => {{
+            idx += 1;
+            if idx % parts == part {
+                let mut h = <$T>::default();
+                let pre = exact($pre, &mut s);
+                Update::update(&mut h, &pre[..]);
+                let msg = exact($len, &mut s);
+                Update::update(&mut h, &msg[..]);
+                let mut out = exact(<$T as Digest>::output_size(), &mut s);
+                h.finalize_into(GenericArray::from_mut_slice(&mut out));
+                acc ^= fold(&out);
+            }
+        }};
+    }
+    for (pre, len) in [(0usize, 1usize), (0, 15), (0, 36), (0, 63), (0, 64), (0, 65), (1, 100), (17, 47), (63, 2), (0, 256 + 36), (5, 300)] {
+        cipher!(ChaCha20, 8, pre, len);
+        cipher!(Ietf, 12, pre, len);
+        cipher!(XChaCha8, 24, pre, len);
+        cipher!(ChaCha8, 8, pre, len);
+        cipher!(ChaCha12, 8, pre, len);
+        cipher!(XChaCha12, 24, pre, len);
+        cipher!(XChaCha20, 24, pre, len);
+    }
+    for (pre, len) in [(0usize, 0usize), (0, 1), (0, 55), (3, 64), (0, 65), (1, 127), (0, 129), (31, 33), (0, 200)] {
+        hash!(Blake224, pre, len);
+        hash!(Blake256, pre, len);
+        hash!(Blake384, pre, len);
+        hash!(Blake512, pre, len);
+        hash!(Groestl224, pre, len);
+        hash!(Groestl256, pre, len);
+        hash!(Groestl384, pre, len);
+        hash!(Groestl512, pre, len);
+        hash!(Jh224, pre, len);
+        hash!(Jh256, pre, len);
+        hash!(Jh384, pre, len);
+        hash!(Jh512, pre, len);
+        hash!(Skein256<U32>, pre, len);
+        hash!(Skein512<U64>, pre, len);
+        hash!(Skein1024<U128>, pre, len);
+        hash!(Skein512<U32>, pre, len);
+    }
+    for _ in 0..2 {
+        idx += 1;
+        if idx % parts == part {
+            let key = exact(32, &mut s);
+            let f = Threefish256::new(GenericArray::from_slice(&key));
+            let mut b = exact(32, &mut s);
+            f.encrypt_block(GenericArray::from_mut_slice(&mut b));
+            acc ^= fold(&b);
+            let key = exact(64, &mut s);
+            let f = Threefish512::with_tweak(GenericArray::from_slice(&key), 1, 2);
+            let mut b = exact(64, &mut s);
+            f.encrypt_block(GenericArray::from_mut_slice(&mut b));
+            acc ^= fold(&b);
+            let key = exact(128, &mut s);
+            let f = Threefish1024::new(GenericArray::from_slice(&key));
+            let mut b = exact(128, &mut s);
+            f.encrypt_block(GenericArray::from_mut_slice(&mut b));
+            acc ^= fold(&b);
+            let key = exact(32, &mut s);
+            let karr: &[u8; 32] = (&key[..]).try_into().unwrap();
+            let nonce = exact(12, &mut s);
+            let mut c = ChaCha::new(karr, &nonce);
+            let mut o1 = exact(64, &mut s);
+            c.refill(3, (&mut o1[..]).try_into().unwrap());
+            let mut o4 = exact(256, &mut s);
+            c.refill4(2, (&mut o4[..]).try_into().unwrap());
+            acc ^= fold(&o1) ^ fold(&o4);
+        }
+    }
+    acc
 }
 
 fn main() {
@@ -194,6 +307,24 @@ fn main() {
                 all.push(out.join(","));
             }
             println!("{}", all.join(";"));
+        }
+        "mem" => {
+            // mirithreads mem <base> <parts> [part]
+            let parts = nw.max(1);
+            let part = match a.get(4).and_then(|s| s.parse::<u64>().ok()) {
+                Some(p) => p % parts,
+                None => {
+                    let mut x = 0u64;
+                    for size in [1usize, 24, 100, 1000, 5000] {
+                        let probe = vec![0u8; size];
+                        x = x.rotate_left(13) ^ (probe.as_ptr() as usize as u64);
+                        x = splitmix(&mut x);
+                    }
+                    x % parts
+                }
+            };
+            let acc = mem_ops(base, part, parts);
+            println!("MEM part={} of {} checksum={:x}", part, parts, acc);
         }
         "plan" => {
             for w in 0..nw {
